@@ -862,7 +862,10 @@ def gen_random(r, cfg, nsteps, weights=None, alphabet=None, prefix=()):
         if sim.ph == 'Connecting':
             opts += ['CO', 'CE']
         if sim.ph in ('Idle', 'InFlight'):
-            opts += ['F', 'G', 'Z', 'R'] + (['Q'] if sim.partial else ['P'])
+            # no small frame is left half delivered while a big read waits in the queue: once that read is in flight the
+            # rest of the small frame would answer it, and a small reply to a big read is not a genuine one
+            big_queued = any(isinstance(c, tuple) and len(c) > 2 and c[0] == 'S' and c[2] == 'b' for c in list(sim.q) + list(sim.blocked))
+            opts += ['F', 'G', 'Z', 'R'] + (['Q'] if sim.partial else ([] if big_queued else ['P']))
         if sim.ph == 'WaitEnabled' and not sim.enabled:
             opts += ['E', 'E']
         if alphabet:
